@@ -13,6 +13,9 @@
     coll imm T u:unit n x1..xn op*   imm = 0|1 (immutable class); op = cu u:x | ci | cs | tu u:x | ti | ts
         -> per op ` | <res> # I:<imm> T:<type> u:<unit> r1..rn`  where res = ok | err:value | err:attr |
            new I:<imm> T:<type> u:<unit> r1..rn  (state after `#` is the collection the op was called on)
+    norm|agg imm T u:unit n x1..xn area u:areaunit  -> ok <state> | err:assert | err:zero | err:value
+    tagg|trate imm T u:unit n x1..xn timestep       -> ok <state> | err:assert | err:value
+    generic ...            -> see `handleGeneric`
     tables T               -> units / si / ip / targets / limits as the model holds them
 -/
 import Ladybug.DrvCore
@@ -29,6 +32,14 @@ def piRat : Rat := (Py.ratOfFloatBits 0x400921FB54442D18).getD 0
 def table : List UType := Gen.Units.allTypes piRat
 
 def findT (name : String) : Option UType := table.find? (·.name = name)
+
+def reg : Reg := Gen.Units.reg piRat
+
+def showErr2 : Err2 → String
+  | .assert => "err:assert"
+  | .zero => "err:zero"
+  | .value => "err:value"
+  | .attr => "err:attr"
 
 def unitTok? (s : String) : Option String :=
   if s.startsWith "u:" then some ((s.drop 2).toString.replace "^" " ") else none
@@ -141,6 +152,67 @@ def handle (toks : List String) : String :=
       if Coll.headerOk T u then runOps (ops.length + 1) ⟨T, u, vals, imm⟩ ops "ok"
       else "err:value"
     | _, _, _, _ => "bad-op"
+  | "raw" :: t :: u :: f :: n :: rest =>
+    -- values: 16-hex-digit floats or `str` (a non-number)
+    let vs : Option (List (Option Rat)) := rest.mapM fun s =>
+      if s = "str" then some none else (rats? [s]).bind fun l => l.head?.map some
+    match findT t, unitTok? u, unitTok? f, n.toNat?, vs with
+    | some T, some u, some f, some n, some vs =>
+      if vs.length ≠ n then "bad-op" else
+      match T.toUnitRaw vs u f with
+      | .ok r => joinSp ("ok" :: r.map fun o => match o with | some q => showRat q | none => "str")
+      | .error .assert => "err:assert"
+      | .error .value => "err:value"
+      | .error .attr => "err:attr"
+      | .error .type => "err:type"
+    | _, _, _, _, _ => "bad-op"
+  | "g_to_unit" :: _g :: _u :: _f :: _rest => "err:other:NotImplementedError"
+  | "g_to_sys" :: _g :: f :: rest =>
+    match unitTok? f, takeVals rest with
+    | some f, some (vals, []) => joinSp ("ok" :: showUnit f :: vals.map showRat)
+    | _, _ => "bad-op"
+  | ["g_header", g, u] =>
+    match unitTok? g, unitTok? u with
+    | some g, some u => if (Generic.acceptable ⟨g, .negInf, .posInf⟩ u) then "ok" else "err:value"
+    | _, _ => "bad-op"
+  | "g_in_range" :: g :: lo :: hi :: u :: rest =>
+    let bnd (s : String) : Option Bound :=
+      if s = "-inf" then some .negInf else if s = "inf" then some .posInf
+      else (rats? [s]).bind fun l => l.head?.map Bound.fin
+    let unit : Option (Option String) := if u = "none" then some none else (unitTok? u).map some
+    match unitTok? g, bnd lo, bnd hi, unit, takeVals rest with
+    | some g, some lo, some hi, some unit, some (vals, []) =>
+      match Generic.isInRange ⟨g, lo, hi⟩ vals unit with
+      | .ok b => "ok " ++ showBool b
+      | .error _ => "err:value"
+    | _, _, _, _, _ => "bad-op"
+  | op :: imm :: t :: u :: rest =>
+    if op = "norm" ∨ op = "agg" ∨ op = "tagg" ∨ op = "trate" then
+      match bool? imm, findT t, unitTok? u, takeVals rest with
+      | some imm, some T, some u, some (vals, tail) =>
+        if !Coll.headerOk T u then "err:value" else
+        let c : Coll := ⟨T, u, vals, imm⟩
+        let res : Option (Except Err2 Coll) :=
+          match tail with
+          | [a, au] =>
+            match rats? [a], unitTok? au with
+            | some [a], some au =>
+              if op = "norm" then some (reg.normalizeByArea c a au)
+              else if op = "agg" then some (reg.aggregateByArea c a au) else none
+            | _, _ => none
+          | [ts] =>
+            match rats? [ts] with
+            | some [ts] =>
+              if op = "tagg" then some (reg.timeAggregated c ts)
+              else if op = "trate" then some (reg.timeRateOfChange c ts) else none
+            | _ => none
+          | _ => none
+        match res with
+        | some (.ok c') => "ok " ++ showState c'
+        | some (.error e) => showErr2 e
+        | none => "bad-op"
+      | _, _, _, _ => "bad-op"
+    else "bad-op"
   | ["tables", t] =>
     match findT t with
     | some T =>
